@@ -11,17 +11,17 @@ import (
 var siteFuncs = map[string][]string{
 	"threshold/threshold.go": {"Scheme.HandleMessage", "Scheme.handleSync", "Scheme.handleMPC", "Scheme.handleRBC", "Scheme.handleAck",
 		"Scheme.runDKG", "Scheme.prepareSigning", "rbcEncoding.Ack", "rbcEncoding.Payload", "rbcMsg.Ack", "rbcFilter.Receive", "threadSafeRBC.Receive", "threadSafeSync.HandleMessage", "prefix"},
-	"rbc/rbc.go":        {"Receiver.Receive", "Receiver.registerMsg", "Receiver.initIfNeeded", "prefix"},
-	"disc/discovery.go": {"Member.HandleMessage", "Member.handleResponse", "Member.handleMembershipMessage", "Member.respondToQuery", "decodeTagAndMembershipList", "Member.myMemberViewSorted", "Member.computeMyTag"},
-	"msg/msgbox.go":     {"Box.HandleMessage", "Box.storeOrForward", "Box.getOrCreateMessagesByTopic", "Box.markTopicForSender", "Box.hasStartedSending", "storedMessages.add", "topicPrefix"},
-	"mpc/bls/mpc.go":    {"TBLS.ClassifyMsg", "TBLS.OnMsg"},
+	"rbc/rbc.go":          {"Receiver.Receive", "Receiver.registerMsg", "Receiver.initIfNeeded", "prefix"},
+	"disc/discovery.go":   {"Member.HandleMessage", "Member.handleResponse", "Member.handleMembershipMessage", "Member.respondToQuery", "decodeTagAndMembershipList", "Member.myMemberViewSorted", "Member.computeMyTag"},
+	"msg/msgbox.go":       {"Box.HandleMessage", "Box.storeOrForward", "Box.getOrCreateMessagesByTopic", "Box.markTopicForSender", "Box.hasStartedSending", "storedMessages.add", "topicPrefix"},
+	"mpc/bls/mpc.go":      {"TBLS.ClassifyMsg", "TBLS.OnMsg"},
 	"mpc/bls/verifier.go": {"Verifier.Init", "Verifier.Verify"},
-	"mpc/ps/tps.go":     {"TPS.ClassifyMsg", "TPS.OnMsg", "TPS.Sign", "unmarshalPK", "unmarshalShare"},
-	"mpc/ps/verifier.go": {"Verifier.Init", "Verifier.Verify"},
+	"mpc/ps/tps.go":       {"TPS.ClassifyMsg", "TPS.OnMsg", "TPS.Sign", "unmarshalPK", "unmarshalShare"},
+	"mpc/ps/verifier.go":  {"Verifier.Init", "Verifier.Verify"},
 	"mpc/ps/ps.go": {"BlindSignature.fromBytes", "SignBlindSignature", "BlindCorrectFormProof.fromBytes", "BlindCorrectFormProof.Verify", "randomOracleForBlindingProof",
 		"SigPoK.fromBytes", "SigPoK.Verify", "PoKofSignaturePoCorrectForm.fromBytes", "PoKofSignaturePoCorrectForm.Verify", "PoKofSignaturePoCorrectForm.checkcommitmentForm",
 		"randomOracleForPoKofSignature", "PK.fromBytes"},
-	"net/net.go": {"handleConn", "authenticateConnection", "readMsg", "Handshake.Read", "extractTLSBinding"},
+	"net/net.go":               {"handleConn", "authenticateConnection", "readMsg", "Handshake.Read", "extractTLSBinding"},
 	"mpc/binance/ecdsa/mpc.go": {"party.ClassifyMsg", "party.OnMsg", "party.locatePartyIndex"},
 	"mpc/binance/eddsa/mpc.go": {"party.ClassifyMsg", "party.OnMsg", "party.locatePartyIndex"},
 }
